@@ -64,6 +64,8 @@ def run(c):
         "length 8 (9). Split, path.Clean: every string over {a / .} up to length 8 (10). Join/path.Join: all lists of 0-3 of 15 "
         "elements. New: 6x7x15x7 field combinations. (package, path): 12 packages x (all sequences of up to 4 (5) components of "
         "{.. . a '' ... ..a b:c}, relative and absolute, plus every string over {a / .} up to length 6 (8)) plus random pairs. "
+        "Stability: every accepted string of the above up to length 6 and every accepted random string. Record paths: kinds "
+        "{'', source} x 361 packages of depth 0-3 over 9 elements x 19 names. End to end: 3 (25) generated projects. "
         "A correspondence case is non-trivial when the real code returned a value (not an error).")
     c.prove()
     exe = harness(c)
@@ -87,11 +89,17 @@ def run(c):
                 c.correspond(stream, drv, known, nontrivial=lambda i, o: o.startswith("ok"))
                 if unk:
                     c.coverage["streams"][stream]["cases_with_unknown_error_wording"] = len(unk)
-        judged = (stats.get("round_trips_checked", 0) + stats.get("pairs", 0) + stats.get("strings", 0))
+        judged = (stats.get("round_trips_checked", 0) + stats.get("pairs", 0) + stats.get("strings", 0) +
+                  stats.get("stability_checked", 0) + stats.get("e2e_labels_reparsed", 0) + stats.get("record_paths_judged", 0))
         c.count("label.judge", judged,
                 sample={"judge": "Parse(l.String()) == l for accepted l with a name or without a kind, also after RelativeTo / "
                                  "New / sourceLabel; equal printed forms only for equal labels; no panic; "
-                                 "filepath.Join(root, repoSourcePath(pkg, p)) under root, no '..' component; escaping paths rejected",
+                                 "filepath.Join(root, repoSourcePath(pkg, p)) under root, no '..' component; escaping paths rejected; "
+                                 "stability: Parse(s) is the same label and prints the same after earlier results of Parse(s) / "
+                                 "RelativeTo / New were changed the way module loading and the command line change them, and after "
+                                 "dawn.Load of a generated project that loads modules by absolute label; build records: "
+                                 "targetInfoPath tells ~10k labels (kinds '', source; names incl. '.', '..', '%2F') apart and puts "
+                                 "each directly below its kind's directory",
                         "round_trips_checked": stats.get("round_trips_checked", 0), "pairs": stats.get("pairs", 0)},
                 hist={k: v for k, v in stats.items() if not k.startswith("pairs_label.")})
         for v in viols:
